@@ -23,7 +23,7 @@ import ast
 import os
 import re
 
-from ..common import Report, REPO, AnalysisError, src
+from ..common import Report, REPO, AnalysisError, src, rel
 from ..match import match_expr, strip_doc
 
 FILE = 'online_check/stdnum.wsgi'
@@ -223,6 +223,80 @@ def response_paths(app):
     return out if set(out) == {True, False} else None
 
 
+BYTES_CALLS = {'bytes', 'bytearray', 'fromhex', 'a2b_hex', 'unhexlify', 'b64decode', 'b32decode', 'b16decode', 'encode', 'digest', 'pack', 'to_bytes',
+               'set', 'frozenset', 'complex', 'memoryview'}
+
+
+def _nonjson(expr, fn, depth=0):
+    """A reason when the expression is certainly a value json.dumps() refuses (bytes, set, complex), else None."""
+    if isinstance(expr, ast.Constant) and isinstance(expr.value, (bytes, complex)):
+        return '%s constant' % type(expr.value).__name__
+    if isinstance(expr, (ast.Set, ast.SetComp)):
+        return 'set'
+    if isinstance(expr, ast.Call):
+        name = expr.func.attr if isinstance(expr.func, ast.Attribute) else (expr.func.id if isinstance(expr.func, ast.Name) else '')
+        if name in BYTES_CALLS and not (name == 'encode' and False):
+            return 'result of %s()' % src(expr.func)
+    if isinstance(expr, ast.IfExp):
+        return _nonjson(expr.body, fn, depth) or _nonjson(expr.orelse, fn, depth)
+    if isinstance(expr, ast.BinOp) and isinstance(expr.op, ast.Add):
+        return _nonjson(expr.left, fn, depth) or _nonjson(expr.right, fn, depth)
+    if isinstance(expr, ast.Name) and depth < 3:
+        vals = [st.value for st in ast.walk(fn) if isinstance(st, ast.Assign) and any(isinstance(t, ast.Name) and t.id == expr.id for t in st.targets)]
+        for v in vals:
+            r = _nonjson(v, fn, depth + 1)
+            if r:
+                return r
+    return None
+
+
+def json_kind_rule(rep, gc):
+    """C18.json-kind: what get_conversions() puts into the answer is handed to json.dumps() in AJAX mode outside any handler; a conversion
+    function it selects (by its name tests and the single required parameter) must not return bytes / set / complex values."""
+    from ..strabs.model import Program
+    pre, suf = [], []
+    for n in ast.walk(gc):
+        if isinstance(n, ast.Call) and isinstance(n.func, ast.Attribute) and n.func.attr in ('startswith', 'endswith') and n.args:
+            cs = [c.value for c in ast.walk(n.args[0]) if isinstance(c, ast.Constant) and isinstance(c.value, str)]
+            (pre if n.func.attr == 'startswith' else suf).extend(cs)
+    if not pre:
+        rep.undecide('C18.json-kind', FILE, 'get_conversions() no longer selects functions by constant name prefixes')
+        return 0
+    prog = Program()
+    n_ = 0
+    excluded_bytes = 0
+    for mn in prog.number_modules():
+        m = prog.mods[mn]
+        cands = dict(m.funcs)
+        for st in m.tree.body:     # aliases: to_x = f
+            if isinstance(st, ast.Assign) and isinstance(st.value, ast.Name) and st.value.id in m.funcs:
+                for t in st.targets:
+                    if isinstance(t, ast.Name):
+                        cands[t.id] = m.funcs[st.value.id]
+        for name, fn in sorted(cands.items()):
+            if not name.startswith(tuple(pre)):
+                continue
+            a = fn.args
+            req = [x.arg for x in a.posonlyargs + a.args][:len(a.posonlyargs + a.args) - len(a.defaults)] + \
+                  [x.arg for x, d in zip(a.kwonlyargs, a.kw_defaults) if d is None]
+            if len(req) != 1:
+                continue
+            reasons = [r for r in (_nonjson(x.value, fn) for x in ast.walk(fn) if isinstance(x, ast.Return) and x.value is not None) if r]
+            if suf and name.endswith(tuple(suf)):
+                excluded_bytes += bool(reasons)
+                continue
+            n_ += 1
+            rep.check(not reasons, 'C18.json-kind', rel(m.path), name, 'def %s' % name, fn.lineno,
+                      'get_conversions() selects %s.%s() (name and single required parameter) and puts its result into the answer; it returns a %s, which '
+                      'json.dumps() refuses: every AJAX query for a number this module accepts ends in a server error'
+                      % (mn.replace('stdnum.', ''), name, reasons[0] if reasons else ''), what='%s.%s returns no bytes/set/complex value' % (mn.replace('stdnum.', ''), name))
+    probe = ast.parse('def to_x(number):\n    v = bytes.fromhex(number)\n    return v\n').body[0]
+    if not _nonjson(probe.body[-1].value, probe):
+        rep.error('C18.json-kind no longer recognises its positive example')
+    rep.extra['json_kind_excluded_by_suffix_returning_bytes'] = excluded_bytes
+    return n_
+
+
 def check(tier):
     rep = Report('C18', tier, level='other',
                  rule_text='taint rule for safe markup over the WSGI script, literal-status rule, query-access rule, listing shape, template '
@@ -351,6 +425,7 @@ def check(tier):
                         inside = True
             rep.check(inside, 'C18.listing', FILE, 'get_conversions', src(n), n.lineno, 'a conversion function is called outside `except Exception`')
     rep.expect_at_least('C18.listing', 3, 'listing obligations')
+    rep.unit('conversion functions read for C18.json-kind', json_kind_rule(rep, gc))
     # ---- template directives
     tpath = os.path.join(REPO, TEMPLATE)
     if not os.path.exists(tpath):
@@ -454,5 +529,5 @@ def check(tier):
                   y.lineno, 'get_number_modules() skips modules by a further condition (%s): a format whose is_valid() accepts the number can be missing from the answer'
                   % (src(extra[0]) if extra else ''), what='modules are filtered only by hasattr(module, validate) and the alias test')
     rep.not_decided = ['that formatfn/compactfn never raise on numbers accepted by is_valid() (C04, C01)',
-                       'JSON serialisability of every conversion result']
+                       'JSON serialisability of conversion results beyond the kind rule C18.json-kind (bytes, set and complex values are excluded; Decimal, non-string dictionary keys and objects of foreign classes are not decided)']
     return rep.finish()
